@@ -432,6 +432,35 @@ func (vc *VC) bitop(x *ast.BinaryExpr, l, r Term, t types.Type, st *State) Term 
 			}
 		}
 	}
+	// x | 2^k and x &^ 2^k, x & 2^k with a constant single-bit operand: exact
+	// (bit k of x is floor(x / 2^k) mod 2, also for negative two's-complement x)
+	for _, side := range []struct {
+		c ast.Expr
+		v Term
+	}{{x.Y, l}, {x.X, r}} {
+		if x.Op == token.AND_NOT && side.c != x.Y {
+			continue
+		}
+		tv, ok := info.Types[side.c]
+		if !ok || tv.Value == nil || tv.Value.Kind() != constant.Int {
+			continue
+		}
+		n, ok := constant.Int64Val(tv.Value)
+		if !ok || n <= 0 || n&(n-1) != 0 {
+			continue
+		}
+		bit := fmt.Sprintf("(= (mod (div %s %d) 2) 1)", side.v.S, n)
+		switch x.Op {
+		case token.OR:
+			return vc.define("bit", Term{fmt.Sprintf("(ite %s %s (+ %s %d))", bit, side.v.S, side.v.S, n), SInt, t})
+		case token.AND:
+			return vc.define("bit", Term{fmt.Sprintf("(ite %s %d 0)", bit, n), SInt, t})
+		case token.AND_NOT:
+			return vc.define("bit", Term{fmt.Sprintf("(ite %s (- %s %d) %s)", bit, side.v.S, n, side.v.S), SInt, t})
+		case token.XOR:
+			return vc.define("bit", Term{fmt.Sprintf("(ite %s (- %s %d) (+ %s %d))", bit, side.v.S, n, side.v.S, n), SInt, t})
+		}
+	}
 	fn := "bit." + map[token.Token]string{token.AND: "and", token.OR: "or", token.XOR: "xor", token.SHL: "shl", token.SHR: "shr", token.AND_NOT: "andnot"}[x.Op]
 	vc.ss.declare(&sortInfo{Name: Sort("fn$" + fn), Kind: "const", Decl: fmt.Sprintf("(declare-fun %s (Int Int) Int)", fn)})
 	res := Term{fmt.Sprintf("(%s %s %s)", fn, l.S, r.S), SInt, t}
